@@ -21,6 +21,12 @@ SPEC = {
             '/ the destination; shapes: full access, random subsets, group without destination, group without feed, an oracle with a '
             'single source chain, an oracle with no chain) x scripted chain state (curses, enabled sources, RMN remote config set or unset, '
             'selected ranges, tokens, fee components / native prices / fee updates partly missing, on-chain and pending commit reports, '
+            'value classes (half of the worlds regular, the others drawn from the boundaries): USD feed answers regular / 0 / negative / 2^200 / 1, fee-quoter token update values '
+            '9 / 1 / 2^200, fee components execution fee 1 / 2^200 and data-availability fee 0 / 2^200, native prices up to 2^60, fee updates with a timestamp but value 0 (dropped by '
+            'the reader: as absent) or value 1 / 2^200, message fee 1e30 / 0 / nil / 2^200, message data nil / zero-length / bytes, inbound nonces 3 / 0 / 2^64-1 - validation accepts all of '
+            'these from anybody and the model does not even take them as input; 1 chain in 14 of those worlds holds a value validation rejects from anybody (execution fee 0 / negative / '
+            'absent, data-availability fee negative / absent, native price 0): outside values_ok, judged for model/implementation agreement only; the execute harness keeps the '
+            'destination chain\'s fee components and native price small (the model\'s "no message is flagged as costly" rests on the execution cost rounding to 0). '
             'readable messages 0..all, senders 0..2) x failing reader calls (none / 1..3 random (call kind, chain) pairs / every call on one '
             'chain) x phase (3 commit states + retry query, 3 execute states, contracts not yet initialised). For every oracle i of the world '
             'one real plugin (NewPlugin) over a real ccipChainReader whose contract readers and chain writers exist only for the chains of '
